@@ -354,10 +354,10 @@ Proof.
   eexists; eexists; eexists. split; [vm_compute; reflexivity|]. split; vm_compute; reflexivity.
 Qed.
 
-(* as coded: the write-back stores the first solved vector and then fails on the frequency vector of the second unknown:
+(* before the repair DI92 (variant NWriteBackLate): the write-back stores the first solved vector and then fails on the frequency vector of the second unknown:
    vnacal_new_solve returns -1, vn_calibration is unchanged, and one parameter already carries the new solution *)
 Theorem new_solve_writeback_not_atomic_refuted_lemma :
-  exists ks ops k w os s, wrun NFixed (mkW (mkprms ks) []) ops (start (Some k)) = Ok ((w, os), s) /\
+  exists ks ops k w os s, wrun NWriteBackLate (mkW (mkprms ks) []) ops (start (Some k)) = Ok ((w, os), s) /\
     last os Done = Err ENOMEM /\
     map (fun p => match pgv p with Some _ => true | None => false end) (w_prm w) = [false; false; false; false; true; false].
 Proof.
@@ -622,64 +622,105 @@ Proof.
     + apply safe_ret. exists []; simpl; rewrite app_nil_r; split; [auto | split; [auto | discriminate]].
 Qed.
 
-Lemma li_write_back : forall unk freqs ps pv G s, LI (psown ps ++ pv ++ G) s -> cfgok ps ->
-  (forall u, In u unk -> u < length ps) -> length unk <= length pv ->
-  safe (write_back freqs ps unk pv) s (fun r s' => let '(ok, ps', pv') := r in
-        LI (psown ps' ++ pv' ++ G) s' /\ cfgok ps' /\ length ps' = length ps).
+Lemma cnt_somes_app : forall x a b, cnt x (somes (a ++ b)) = cnt x (somes a) + cnt x (somes b).
+Proof. induction a as [|[y|] a IH]; intros; simpl; autorewrite with cntdb; try rewrite IH; lia. Qed.
+
+(* what a NULL entry of new_frequency_vector[] means for the parameter it belongs to *)
+Definition NFR (freqs : nat) (ps : list prm) (u : nat) (f : option block_id) : Prop :=
+  f = None -> freqs = 0 \/ pfn (nth u ps pdummy) = freqs.
+
+Lemma li_prealloc : forall unk freqs ps acc own s, LI own s ->
+  safe (prealloc freqs ps unk acc) s (fun r s' => exists nf, snd r = acc ++ nf /\ LI (somes nf ++ own) s' /\
+        (fst r = true -> Forall2 (NFR freqs ps) unk nf)).
 Proof.
-  induction unk as [|u rest IH]; intros freqs ps pv G s HL Hc Hu Hlen; simpl.
-  - apply safe_ret; auto.
-  - destruct pv as [|g pv']; [simpl in Hlen; lia|].
+  induction unk as [|u rest IH]; intros freqs ps acc own s HL; simpl.
+  - apply safe_ret. exists []. rewrite app_nil_r. split; [reflexivity|]. split; [exact HL|]. intro; constructor.
+  - destruct ((freqs =? 0) || (pfn (nth u ps pdummy) =? freqs)) eqn:Hc.
+    + eapply safe_weaken; [apply (IH freqs ps (acc ++ [None]) own s HL)|].
+      intros [ok got] s' [nf [Hs [HL' Hf]]]; simpl in *. exists (None :: nf). split; [rewrite Hs, <- app_assoc; reflexivity|].
+      split; [exact HL'|]. intro Hok. constructor; [|apply Hf; auto].
+      intros _. apply orb_true_iff in Hc. destruct Hc as [Hc|Hc]; apply Nat.eqb_eq in Hc; auto.
+    + apply safe_bind. eapply safe_weaken; [apply li_malloc; exact HL|]. intros [b|] s1 HL1.
+      * eapply safe_weaken; [apply (IH freqs ps (acc ++ [Some b]) (b :: own) s1 HL1)|].
+        intros [ok got] s' [nf [Hs [HL' Hf]]]; simpl in *. exists (Some b :: nf). split; [rewrite Hs, <- app_assoc; reflexivity|].
+        split; [apply (LI_eq _ _ _ HL'); simpl; ms|]. intro Hok. constructor; [intro; discriminate | apply Hf; auto].
+      * apply safe_ret. exists []. rewrite app_nil_r. simpl. split; [reflexivity|]. split; [exact HL1|]. discriminate.
+Qed.
+
+Lemma NFR_upd : forall freqs ps u0 p' unk nf, pfn p' = freqs -> Forall2 (NFR freqs ps) unk nf -> Forall2 (NFR freqs (upd ps u0 p')) unk nf.
+Proof.
+  intros freqs ps u0 p' unk nf Hp H. induction H as [|u f unk nf Hh Ht IH]; constructor; auto.
+  intro Hf. destruct (Hh Hf) as [Hz|He]; [left; auto|]. right.
+  destruct (Nat.ltb_spec u0 (length ps)).
+  - destruct (Nat.eq_dec u0 u) as [->|Hne]; [rewrite nth_upd_eq by auto; auto | rewrite nth_upd_ne by auto; auto].
+  - rewrite upd_short by lia. auto.
+Qed.
+
+Lemma li_commit : forall unk freqs ps nf pv G s, LI (psown ps ++ somes nf ++ pv ++ G) s -> cfgok ps ->
+  (forall u, In u unk -> u < length ps) -> length unk <= length pv -> Forall2 (NFR freqs ps) unk nf ->
+  safe (commit freqs ps unk nf pv) s (fun r s' => LI (psown (fst r) ++ snd r ++ G) s' /\ cfgok (fst r) /\ length (fst r) = length ps).
+Proof.
+  induction unk as [|u rest IH]; intros freqs ps nf pv G s HL Hc Hu Hlen HF; simpl.
+  - inversion HF; subst. apply safe_ret. simpl in *. auto.
+  - inversion HF as [|u' f rest' nf' Hh Ht]; subst.
+    destruct pv as [|g pv']; [simpl in Hlen; lia|].
     assert (Hul : u < length ps) by (apply Hu; simpl; auto).
-    set (p := nth u ps pdummy).
+    set (p := nth u ps pdummy) in *.
     assert (Hps : forall p' x, cnt x (psown (upd ps u p')) + cnt x (pown p) = cnt x (psown ps) + cnt x (pown p')).
     { intros p' x. pose proof (psown_upd ps u p' x) as H. apply Nat.ltb_lt in Hul. rewrite Hul in H. exact H. }
     set (p0 := mkPr (pkd p) (pheld p) None None 0).
-    set (R := g :: pv' ++ G).
-    set (Q := psown (upd ps u p0) ++ R).
-    assert (HL0 : LI (optl (pgv p) ++ optl (pfv p) ++ Q) s).
+    set (Q := psown (upd ps u p0) ++ somes nf' ++ g :: pv' ++ G).
+    assert (HL0 : LI (optl (pgv p) ++ optl (pfv p) ++ optl f ++ Q) s).
     { apply (LI_eq _ _ _ HL). intro x. pose proof (Hps p0 x) as H. unfold pown in H; simpl in H.
-      unfold Q, R. autorewrite with cntdb in *. lia. }
-    apply safe_bind. eapply safe_weaken; [apply (li_free_opt _ (optl (pfv p) ++ Q) s (pgv p) HL0); ms|].
+      unfold Q. destruct f; simpl; autorewrite with cntdb in *; lia. }
+    apply safe_bind. eapply safe_weaken; [apply (li_free_opt _ (optl (pfv p) ++ optl f ++ Q) s (pgv p) HL0); ms|].
     intros u1 s1 HL1.
     apply safe_bind.
-    assert (Hmid : safe (if negb (pfn p =? freqs)
-                         then free (pfv p) ;;; (if freqs =? 0 then ret (Some (None, 0))
-                                                else m <- malloc (Z.of_nat freqs * 8) ;;
-                                                     ret (match m with None => None | Some b => Some (Some b, freqs) end))
-                         else ret (Some (pfv p, pfn p))) s1
-                    (fun r s' => match r with
-                                 | None => LI Q s'
-                                 | Some (fv, fn) => LI (optl fv ++ Q) s' /\ (fn <> 0 -> fv <> None) /\ (freqs <> 0 -> fn = freqs)
-                                 end)).
-    { destruct (negb (pfn p =? freqs)) eqn:Hne.
-      - apply safe_bind. eapply safe_weaken; [apply (li_free_opt _ Q s1 (pfv p) HL1); ms|].
-        intros u2 s2 HL2. destruct (freqs =? 0) eqn:Hz.
-        + apply safe_ret. split; [exact HL2|]. split; [intro H; congruence | intro H; apply Nat.eqb_eq in Hz; lia].
-        + apply safe_bind. eapply safe_weaken; [apply li_malloc; exact HL2|]. intros [b|] s3 HL3; apply safe_ret.
-          * split; [exact HL3|]. split; [intro; discriminate | auto].
-          * exact HL3.
-      - apply safe_ret. split; [exact HL1|]. split; [apply (proj2 Hc) | intro H; apply negb_false_iff, Nat.eqb_eq in Hne; auto]. }
-    eapply safe_weaken; [exact Hmid|]. clear Hmid. intros [[fv fn]|] s2 H2.
-    + destruct H2 as [HL2 [Hfv Hfn]].
-      apply safe_bind.
-      assert (Htouch : safe (if freqs =? 0 then ret tt else touch fv) s2 (fun _ s' => s' = s2)).
-      { destruct (freqs =? 0) eqn:Hz; [apply safe_ret; auto|].
-        apply Nat.eqb_neq in Hz. destruct fv as [b|].
-        - eapply li_touch; [exact HL2|]. autorewrite with cntdb. rewrite ind_same. lia.
-        - exfalso. apply Hfv; auto. rewrite (Hfn Hz). exact Hz. }
-      eapply safe_weaken; [exact Htouch|]. intros u3 s3 ->.
-      apply safe_bind.
-      set (p2 := mkPr (pkd p) (pheld p) fv (Some g) fn).
-      assert (HL3 : LI (psown (upd ps u p2) ++ pv' ++ G) s2).
-      { apply (LI_eq _ _ _ HL2). intro x. pose proof (Hps p0 x) as H0. pose proof (Hps p2 x) as H2.
-        unfold pown in H0, H2; simpl in H0, H2. unfold Q, R. autorewrite with cntdb in *. lia. }
-      eapply safe_weaken; [apply (IH freqs (upd ps u p2) pv' G s2 HL3)|].
-      * apply cfgok_upd; auto.
-      * intros u' Hin. rewrite length_upd2. apply Hu; simpl; auto.
-      * simpl in Hlen; lia.
-      * intros [[ok ps'] pv''] s4 [H4 [H5 H6]]. apply safe_ret. split; [exact H4|]. split; auto. rewrite H6. apply length_upd2.
-    + apply safe_ret. split; [exact H2|]. split; [apply cfgok_upd; auto; simpl; congruence | apply length_upd2].
+    assert (Hmid : safe (match f with
+                         | Some b => free (pfv p) ;;; ret (Some b)
+                         | None => if pfn p =? freqs then ret (pfv p) else free (pfv p) ;;; ret None
+                         end) s1
+                    (fun fv s' => LI (optl fv ++ Q) s' /\ (freqs <> 0 -> fv <> None))).
+    { destruct f as [b|].
+      - apply safe_bind. eapply safe_weaken; [apply (li_free_opt _ (optl (Some b) ++ Q) s1 (pfv p) HL1); ms|].
+        intros u2 s2 HL2. apply safe_ret. split; [exact HL2 | intros _; discriminate].
+      - destruct (Nat.eqb_spec (pfn p) freqs) as [He|Hne].
+        + apply safe_ret. split; [apply (LI_eq _ _ _ HL1); simpl; ms|]. intro Hz. apply (proj2 Hc). fold p. lia.
+        + apply safe_bind. eapply safe_weaken; [apply (li_free_opt _ Q s1 (pfv p) HL1); simpl; ms|].
+          intros u2 s2 HL2. apply safe_ret. split; [exact HL2|]. intro Hz. exfalso. destruct (Hh eq_refl) as [H0|H0]; [lia | apply Hne; exact H0]. }
+    eapply safe_weaken; [exact Hmid|]. clear Hmid. intros fv s2 [HL2 Hfv].
+    apply safe_bind.
+    assert (Htouch : safe (if freqs =? 0 then ret tt else touch fv) s2 (fun _ s' => s' = s2)).
+    { destruct (freqs =? 0) eqn:Hz; [apply safe_ret; auto|].
+      apply Nat.eqb_neq in Hz. destruct fv as [b|]; [|exfalso; apply (Hfv Hz); reflexivity].
+      eapply li_touch; [exact HL2|]. autorewrite with cntdb. rewrite ind_same. lia. }
+    eapply safe_weaken; [exact Htouch|]. intros u3 s3 ->.
+    set (p2 := mkPr (pkd p) (pheld p) fv (Some g) freqs).
+    assert (HL3 : LI (psown (upd ps u p2) ++ somes nf' ++ pv' ++ G) s2).
+    { apply (LI_eq _ _ _ HL2). intro x. pose proof (Hps p0 x) as H0. pose proof (Hps p2 x) as H2.
+      unfold pown in H0, H2; simpl in H0, H2. unfold Q. autorewrite with cntdb in *. lia. }
+    eapply safe_weaken; [apply (IH freqs (upd ps u p2) nf' pv' G s2 HL3)|].
+    + apply cfgok_upd; auto.
+    + intros u' Hin. rewrite length_upd2. apply Hu; simpl; auto.
+    + simpl in Hlen; lia.
+    + apply NFR_upd; auto.
+    + intros [ps' pv''] s4 [H4 [H5 H6]]. simpl in *. split; [exact H4|]. split; auto. rewrite H6. apply length_upd2.
+Qed.
+
+Lemma li_write_back : forall unk freqs ps pv G s, LI (psown ps ++ pv ++ G) s -> cfgok ps ->
+  (forall u, In u unk -> u < length ps) -> length unk <= length pv ->
+  safe (write_back freqs ps unk pv) s (fun r s' => let '(ok, ps', pv') := r in
+        LI (psown ps' ++ pv' ++ G) s' /\ cfgok ps' /\ length ps' = length ps /\ (ok = false -> ps' = ps /\ pv' = pv)).
+Proof.
+  intros unk freqs ps pv G s HL Hc Hu Hlen. unfold write_back.
+  apply safe_bind. eapply safe_weaken; [apply (li_prealloc unk freqs ps [] _ s HL)|].
+  intros [ok nf] s1 [nf' [Hs [HL1 HF]]]; simpl in Hs; subst nf. destruct ok; simpl.
+  - apply safe_bind.
+    assert (HL2 : LI (psown ps ++ somes nf' ++ pv ++ G) s1) by (apply (LI_eq _ _ _ HL1); ms).
+    eapply safe_weaken; [apply (li_commit unk freqs ps nf' pv G s1 HL2 Hc Hu Hlen (HF eq_refl))|].
+    intros [ps' pv''] s2 [H1 [H2 H3]]. apply safe_ret. simpl in *. split; [exact H1|]. split; auto. split; auto. discriminate.
+  - apply safe_bind. eapply safe_weaken; [apply (li_frees (somes nf') _ (psown ps ++ pv ++ G) s1 HL1); ms|].
+    intros u s2 HL2. apply safe_ret. split; [exact HL2|]. split; auto.
 Qed.
 
 Lemma li_frees3 : forall a b c own own' s, LI own s -> (forall x, cnt x own = cnt x a + cnt x b + cnt x c + cnt x own') ->
@@ -760,7 +801,7 @@ Proof.
   set (G := hs ++ tb ++ cal ++ sl ++ sm ++ vown v ++ F).
   assert (HLw : LI (psown ps ++ tl sp ++ G) s7) by (apply (LI_eq _ _ _ HL7); unfold G, O; ms).
   apply safe_bind. eapply safe_weaken; [apply (li_write_back (vn_unk v) (c_freqs (vn_cfg v)) ps (tl sp) G s7 HLw Hc HU Hlen)|].
-  intros [[okw ps'] pv'] s8 [HL8 [Hc8 Hlen8]]. rewrite Hoc.
+  intros [[okw ps'] pv'] s8 [HL8 [Hc8 [Hlen8 _]]]. rewrite Hoc.
   destruct okw; simpl.
   - apply safe_bind. eapply safe_weaken; [apply (li_frees (rev (vn_cal v)) _
        (psown ps' ++ pv' ++ hs ++ tb ++ cal ++ sl ++ sm ++
